@@ -266,11 +266,12 @@ func init() {
 // pinRange adds the exact range to the path condition when the variable's declared
 // hull (shared across paths that reuse the name with other ranges) is wider.
 func (e *Engine) pinRange(st *State, v *Term, lo, hi uint64) {
-	if v.lo < lo {
-		st.pc = append(st.pc, e.ts.Ule(e.ts.Const(v.w, lo), v))
+	// always pinned: the hull may widen later when another path reuses the name
+	if lo > 0 {
+		st.pc = append(st.pc, e.ts.mk(&Term{op: OpUle, w: 0, args: []*Term{e.ts.Const(v.w, lo), v}}))
 	}
-	if v.hi > hi {
-		st.pc = append(st.pc, e.ts.Ule(v, e.ts.Const(v.w, hi)))
+	if hi < mask(v.w) {
+		st.pc = append(st.pc, e.ts.mk(&Term{op: OpUle, w: 0, args: []*Term{v, e.ts.Const(v.w, hi)}}))
 	}
 }
 
